@@ -379,71 +379,74 @@ func (c *c05cfg) check(tc *cache.TableCache, st c05state, p *prng.R) []finding {
 		return fs
 	}
 	// Index() partitions
-	for _, sp := range c.specs() {
-		var cols []string
-		for _, ck := range sp.cols {
-			if ck.Key != nil {
-				cols = append(cols, fmt.Sprintf("%s|%v", ck.Column, ck.Key))
-			} else {
-				cols = append(cols, ck.Column)
-			}
-		}
-		idx, err := rc.Index(cols...)
-		kind := "client"
-		if sp.schema {
-			kind = "schema"
-		}
-		if len(sp.cols) > 1 {
-			kind += "-multi"
-		}
-		for _, ck := range sp.cols {
-			if ck.Key != nil {
-				kind += "-mapkey"
-			}
-			if ck.Column == "opt" || ck.Column == "opt2" {
-				kind += "-optional"
-			}
-		}
-		if err != nil {
-			fs = append(fs, finding{"C05/index/unavailable/" + kind, fmt.Sprintf("Index(%v): %v", cols, err)})
-			continue
-		}
-		want := map[string][]string{}
-		for u, r := range rows {
-			t := tupleOf(sp, r)
-			want[t] = append(want[t], u)
-		}
-		var wantP, gotP []string
-		for _, us := range want {
-			sort.Strings(us)
-			wantP = append(wantP, strings.Join(us, "+"))
-		}
-		inIndex := map[string]int{}
-		for _, us := range idx {
-			l := append([]string{}, us...)
-			sort.Strings(l)
-			gotP = append(gotP, strings.Join(l, "+"))
-			for _, u := range l {
-				inIndex[u]++
-			}
-		}
-		sort.Strings(wantP)
-		sort.Strings(gotP)
-		if strings.Join(wantP, ";") != strings.Join(gotP, ";") {
-			cls := "partition-differs"
-			for u := range rows {
-				if inIndex[u] == 0 {
-					cls = "row-unreachable"
+	partitions := func(when string) {
+		for _, sp := range c.specs() {
+			var cols []string
+			for _, ck := range sp.cols {
+				if ck.Key != nil {
+					cols = append(cols, fmt.Sprintf("%s|%v", ck.Column, ck.Key))
+				} else {
+					cols = append(cols, ck.Column)
 				}
 			}
-			for u := range inIndex {
-				if _, ok := rows[u]; !ok {
-					cls = "entry-for-deleted-row"
+			idx, err := rc.Index(cols...)
+			kind := "client"
+			if sp.schema {
+				kind = "schema"
+			}
+			if len(sp.cols) > 1 {
+				kind += "-multi"
+			}
+			for _, ck := range sp.cols {
+				if ck.Key != nil {
+					kind += "-mapkey"
+				}
+				if ck.Column == "opt" || ck.Column == "opt2" {
+					kind += "-optional"
 				}
 			}
-			fs = append(fs, finding{"C05/index/" + cls + "/" + kind, fmt.Sprintf("index %s: the index groups rows as %v, a scan of the rows groups them as %v", sp.name, gotP, wantP)})
+			if err != nil {
+				fs = append(fs, finding{"C05/index/unavailable/" + kind, fmt.Sprintf("Index(%v): %v", cols, err)})
+				continue
+			}
+			want := map[string][]string{}
+			for u, r := range rows {
+				t := tupleOf(sp, r)
+				want[t] = append(want[t], u)
+			}
+			var wantP, gotP []string
+			for _, us := range want {
+				sort.Strings(us)
+				wantP = append(wantP, strings.Join(us, "+"))
+			}
+			inIndex := map[string]int{}
+			for _, us := range idx {
+				l := append([]string{}, us...)
+				sort.Strings(l)
+				gotP = append(gotP, strings.Join(l, "+"))
+				for _, u := range l {
+					inIndex[u]++
+				}
+			}
+			sort.Strings(wantP)
+			sort.Strings(gotP)
+			if strings.Join(wantP, ";") != strings.Join(gotP, ";") {
+				cls := "partition-differs"
+				for u := range rows {
+					if inIndex[u] == 0 {
+						cls = "row-unreachable"
+					}
+				}
+				for u := range inIndex {
+					if _, ok := rows[u]; !ok {
+						cls = "entry-for-deleted-row"
+					}
+				}
+				fs = append(fs, finding{"C05/index/" + cls + "/" + kind + when, fmt.Sprintf("index %s: the index groups rows as %v, a scan of the rows groups them as %v", sp.name, gotP, wantP)})
+			}
 		}
 	}
+	partitions("")
 	// lookups by model
 	api := client.VerifNewAPI(tc)
 	probes := []ref.Row{}
@@ -559,6 +562,42 @@ func (c *c05cfg) check(tc *cache.TableCache, st c05state, p *prng.R) []finding {
 				}
 			}
 		}
+	}
+	// Read-only look-ups by condition that one or several indexes can serve (== on every
+	// column of an index, includes {key: value} for a map-key index) must leave the indexes
+	// as they are: the partitions are compared with the scan once more afterwards.
+	if len(fs) == 0 {
+		for _, pr := range probes {
+			for mask := 1; mask < 1<<uint(len(specs)) && mask < 32; mask++ {
+				var conds []ovsdb.Condition
+				for si, sp := range specs {
+					if mask&(1<<uint(si)) == 0 {
+						continue
+					}
+					var spc []ovsdb.Condition
+					for _, ck := range sp.cols {
+						col := c.t.Col(ck.Column)
+						d := pr[ck.Column]
+						if ck.Key != nil {
+							k := ref.Str(ck.Key.(string))
+							v, ok := d.Get(k)
+							if !ok {
+								spc = nil
+								break
+							}
+							spc = append(spc, ovsdb.Condition{Column: ck.Column, Function: ovsdb.ConditionIncludes, Value: dyn.ToOvs(col, ref.Datum{Map: true}.WithPair(k, v))})
+						} else {
+							spc = append(spc, ovsdb.Condition{Column: ck.Column, Function: ovsdb.ConditionEqual, Value: dyn.ToOvs(col, d)})
+						}
+					}
+					conds = append(conds, spc...)
+				}
+				if len(conds) > 0 {
+					_, _ = rc.RowsByCondition(conds)
+				}
+			}
+		}
+		partitions("/after-read-only-condition-lookups")
 	}
 	return fs
 }
